@@ -149,7 +149,8 @@ def act_extremes_net(rng, idx=0, kind=None):
 
 # ------------------------------------------------------------------------------------------------------------------------
 # deterministic witnesses of the crash sites this stream found in the unchanged compiler (recorded as C13 findings; every
-# accelerator, default options).  tools/c13_witness.py compiles them and prints the site.
+# accelerator, default options).  tools/c13_witness.py compiles them and prints the site.  A key `fixed:<commit>:<site>` was
+# repaired in /repo by that commit: its witness must now end without an escaping exception.
 
 def _single(kind, dtype, shape, si, zi, so, zo, opts=None, second=None):
     import random
@@ -179,7 +180,7 @@ WITNESSES = {
     "OverflowError@fp_math.saturating_rounding_mul32:create_lut_rsqrt_int8_op":
         lambda: _single("RSQRT", "int8", [1, 5, 7], 1e-4, -128, 2.0 ** -24, 25),
     # EXP int8 with exp(scale * (127 - zp)) beyond the double range
-    "OverflowError@lut.create_lut_8bit_op":
+    "fixed:c79bf8b:OverflowError@lut.create_lut_8bit_op":
         lambda: _single("EXP", "int8", [1, 4, 5, 8], 100.0, -128, 1.0, 0),
     # CONCATENATION (also RESIZE): IFM scale / OFM scale far from 1 in the rescaling average pool
     "ValueError@scaling.quantise_pooling_scale:generate_ofm_scaling_for_pooling":
@@ -187,7 +188,7 @@ WITNESSES = {
     "AssertionError@scaling.quantise_pooling_scale:generate_ofm_scaling_for_pooling":
         lambda: _single("CONCATENATION", "uint8", [13], 1e-7, 128, 1000.0, 120, ("ConcatenationOptions", dict(Axis=0, FusedActivationFunction=0)), "input"),
     # HARD_SWISH int8 with a tiny input scale
-    "OverflowError@fp_math.rounding_divide_by_pot:convert_hardswish_to_lut":
+    "fixed:755ba3e:OverflowError@fp_math.rounding_divide_by_pot:convert_hardswish_to_lut":
         lambda: _single("HARD_SWISH", "int8", [1, 4, 3, 16], 1e-8, 127, 0.5, 82),
     # SOFTMAX int8 with input scale * beta small enough that the exp table's shift becomes negative
     "ValueError@softmax.generate_exp_table":
